@@ -256,3 +256,56 @@ Lemma mapM_get_iota {A} (l : list A) : mapM (get l) (iota (zlen l)) = Ok l.
 Proof.
   pose proof (mapM_get_iota_gen [] l) as H. cbn in H. unfold iota, zlen. now rewrite Nat2Z.id.
 Qed.
+
+(* ---- pointwise reasoning ---- *)
+Lemma get_zip {A B} (l : list A) (m : list B) p a b :
+  get l p = Ok a -> get m p = Ok b -> get (zip l m) p = Ok (a, b).
+Proof.
+  intros Ha Hb. destruct (get_ok _ _ _ Ha) as [Hr Na]. destruct (get_ok _ _ _ Hb) as [_ Nb].
+  apply get_nth; [lia|]. revert Na Nb. generalize (Z.to_nat p). clear.
+  revert m. induction l as [|x xs IH]; intros m n Na Nb; destruct n; destruct m; cbn in *; try discriminate.
+  - inversion Na; inversion Nb; reflexivity.
+  - eapply IH; eauto.
+Qed.
+Lemma get_zip_inv {A B} (l : list A) (m : list B) p a b :
+  get (zip l m) p = Ok (a, b) -> get l p = Ok a /\ get m p = Ok b.
+Proof.
+  intros H. destruct (get_ok _ _ _ H) as [Hr N].
+  assert (nth_error l (Z.to_nat p) = Some a /\ nth_error m (Z.to_nat p) = Some b) as [Na Nb].
+  { revert N. generalize (Z.to_nat p). clear. revert m.
+    induction l as [|x xs IH]; intros m n N; destruct m; destruct n; cbn in *; try discriminate.
+    - inversion N; auto.
+    - eapply IH; eauto. }
+  split; apply get_nth; auto; lia.
+Qed.
+Lemma zlen_zip_ge {A B} (l : list A) (m : list B) : zlen l <= zlen m -> zlen (zip l m) = zlen l.
+Proof.
+  unfold zlen. revert m. induction l; destruct m; cbn; intros; try lia.
+  specialize (IHl m). lia.
+Qed.
+
+Lemma mapM_pointwise {A B} (f : A -> res B) l ys :
+  zlen l = zlen ys ->
+  (forall p x, get l p = Ok x -> exists y, get ys p = Ok y /\ f x = Ok y) ->
+  mapM f l = Ok ys.
+Proof.
+  revert ys. induction l as [|x xs IH]; intros ys HL HP.
+  - destruct ys; [reflexivity|]. rewrite zlen_cons, zlen_nil in HL. pose proof (zlen_nonneg ys). lia.
+  - destruct ys as [|y ys']; [rewrite zlen_cons, zlen_nil in HL; pose proof (zlen_nonneg xs); lia|].
+    cbn [mapM]. destruct (HP 0 x eq_refl) as (y0 & Hy0 & Hf). cbn in Hy0. inversion Hy0; subst y0.
+    rewrite Hf. cbn [bind]. rewrite (IH ys'); [reflexivity| |].
+    + rewrite !zlen_cons in HL. lia.
+    + intros p x' Hx'. destruct (get_ok _ _ _ Hx') as [Hr N].
+      destruct (HP (p + 1) x') as (y' & Hy' & Hf').
+      { apply get_nth; [lia|]. replace (Z.to_nat (p + 1)) with (S (Z.to_nat p)) by lia. exact N. }
+      exists y'. split; auto. destruct (get_ok _ _ _ Hy') as [Hr' N'].
+      apply get_nth; [lia|]. replace (Z.to_nat (p + 1)) with (S (Z.to_nat p)) in N' by lia. exact N'.
+Qed.
+
+Lemma get_snoc {A} (l : list A) x : get (l ++ [x]) (zlen l) = Ok x.
+Proof.
+  apply get_nth; [apply zlen_nonneg|]. unfold zlen. rewrite Nat2Z.id, nth_error_app2 by lia.
+  now rewrite Nat.sub_diag.
+Qed.
+Lemma get_lt {A} (l : list A) i x : get l i = Ok x -> 0 <= i < zlen l.
+Proof. intros H. apply get_ok in H. tauto. Qed.
